@@ -356,3 +356,18 @@ MUTANTS += [
   "old": "        op, rules = self.h.operator(n_create=n_particles,\n                                    n_annihilate=n_particles)",
   "new": "        op, rules = self.h.operator(n_create=n_particles,\n                                    n_annihilate=n_particles - 1)"},
 ]
+
+MUTANTS += [
+ {"id": "c02-norm-factor-wrong-overlap-order", "prop": "C02", "file": _GS,
+  "old": "                    i1 *= self.overlap(o)\n                    if i1 is S.Zero:",
+  "new": "                    i1 *= self.overlap(order)\n                    if i1 is S.Zero:"},
+ {"id": "c02-norm-factor-sign", "prop": "C02", "file": _GS,
+  "old": "                norm_factor += i1.expand()\n        logger.debug(f\"norm_factor",
+  "new": "                norm_factor -= i1.expand()\n        logger.debug(f\"norm_factor"},
+ {"id": "c02-norm-factor-min-order", "prop": "C02", "file": _GS,
+  "old": "        taylor_expansion = self.expand_norm_factor(order=order, min_order=2)\n        norm_factor = 0",
+  "new": "        taylor_expansion = self.expand_norm_factor(order=order, min_order=1)\n        norm_factor = 0"},
+ {"id": "c02-norm-factor-break-drops-term", "prop": "C02", "file": _GS,
+  "old": "                    if i1 is S.Zero:\n                        break\n                norm_factor += i1.expand()",
+  "new": "                    if i1 is not S.Zero:\n                        break\n                norm_factor += i1.expand()"},
+]
